@@ -20,7 +20,7 @@ from . import ch
 from .refprolog import Interp, Cell, goal_text, goal_text_full
 from .ch import DirectUnit
 
-LEAF_NAMES = 'abcdwxyz'
+LEAF_NAMES = 'abcdwxyzijkmnopq'
 CONTEXT = 'efgh'
 
 
